@@ -20,6 +20,55 @@ CLAIMS = {
             "minus shapes, and Sum over 0..=3 elements, against a u128-carry limb reference; SAT-decided with "
             "unwinding assertions.",
             "Bounded: widths listed (quick: {0,1,7,63,64,65,128,250}); sums of at most 3 elements; Kani std models."),
+    "C02": ("5/C02",
+            "overflowing_mul (generic trimming path) and wrapping_mul (unrolled 1-3-limb paths) at widths "
+            "{64,65,127,128,129,192} and widening_mul at (64,64),(65,64),(64,128),(128,128),(129,65) for ALL operand "
+            "pairs with the 64x64->128 limb product abstracted as an uninterpreted function (axioms: 0*x, 1*x, "
+            "commutativity, consistency, range); checked/saturating/operators/Product plumbing with the multipliers "
+            "stubbed; every operand pair at widths {0,1,2,7,8,16} with the real multipliers; inv_ring = None for "
+            "every even value.",
+            "The three DoubleWord multiply bodies are decided in C15 (unstubbed, relative to Rust's `*`). Outside: "
+            "LIMBS >= 4 multiplication, inv_ring's Some branch at every width (five dependent 64-bit Newton steps: "
+            "> 600 s), full-range 64-bit products without the abstraction."),
+    "C03": ("5/C03",
+            "All division forms (div_rem, / % /= %= in all shapes, wrapping_/checked_ forms, div_ceil, "
+            "(checked_)next_multiple_of) for every (n, d != 0) at widths {1,7,8,16} incl. the Euclidean contract "
+            "q*d+r = n, r < d; zero divisor => panic in every panicking form / None in every checked form at widths "
+            "{0,1,64,65,128,250}; thorough adds one two-limb lattice shape (128 bits, 2x1 limbs, constructive oracle).",
+            "Weak fit, stated: FULL 63/64-bit single-limb operands, and every multi-limb shape except the one "
+            "registered, did not finish (each native `/` is its own divider circuit; div_nx1 3 limbs, div_nxm 4x3 "
+            "> 3000 s). Slice kernels are pinned unreachable by panicking stubs where the shape excludes them."),
+    "C04": ("5/C04",
+            "== != cmp partial_cmp < <= > >= min max is_zero Hash on all pairs, constants, from_limbs accepts exactly "
+            "the canonical arrays (panic otherwise), rand 0.8/0.9 generators under a nondeterministic RngCore, "
+            "arbitrary::Arbitrary over symbolic bytes, and a closure sweep of producers, at widths "
+            "{0,1,2,7,8,63,64,65,127,128,129,192,250,256}; canonicity of every other operation's result is asserted "
+            "inside the other properties' harnesses.",
+            "Not covered: the ill-formed (BITS, LIMBS) clause (compile-time outcomes are not solver-decidable; the "
+            "known Uint::<64,2>::MAX case is listed in DESIGN 7), quickcheck and proptest generators (thread RNG / "
+            "strategy machinery), closure under mul/div/gcd-family operations beyond what C02/C03 assert."),
+    "C13": ("5/C13",
+            "pow/wrapping_pow/overflowing_pow at 1 bit and wrapping_pow at 3 bits for every (base, exponent) "
+            "(thorough: all five forms at {1,2,3,7,8}); log2/checked_log2 at every width in "
+            "{1,2,3,4,7,8,64,65,128,250} and log10/checked_log10 below 4 bits (where the constants 2 and 10 do not fit), "
+            "log2(0)/log10(0) and root(degree 0) panic.",
+            "Outside (measured): log with a generic base and root for 2 <= degree < BITS (float-seeded correction "
+            "loops; even their float-free inputs cost > 400 s at one bit), approx_* functions, pow above 8 bits."),
+    "C14": ("5/C14",
+            "reciprocal(d) = floor((2^128-1)/d) - 2^64 on all 256 table rows x both fills x 4 free low bits, plus "
+            "d = 2^63, 2^64-1 and reciprocal_2 at 2^127, 2^128-1; thorough adds div_2x1 on a 20-free-bit lattice with a "
+            "constructive (q, r) oracle.",
+            "Weak fit, stated: div_3x2, div_nx1, div_nx2, div_nxm and algorithms::div on lattice shapes did not "
+            "finish within 3000 s (every div_2x1/div_3x2 call re-derives the reciprocal in a debug assertion) and are "
+            "not claimed; slice lengths 1..=12 of the property are therefore not reached."),
+    "C15": ("5/C15",
+            "adc_n, sbb_n, add_nx1, cmp, adc, sbb, carrying_add, borrowing_sub, shift_left_small/shift_right_small "
+            "(amounts 1..=63) for ALL contents at slice lengths 0..=4 (thorough 6); mul_nx1/addmul_nx1/submul_nx1 "
+            "(lengths 0..=2, thorough 4), addmul with independent lengths (acc 0..=3, a,b 0..=2; thorough acc 4, a,b 3) "
+            "and addmul_n (0..=2, thorough 5) for ALL contents under the uninterpreted-multiply abstraction; the real "
+            "DoubleWord bodies through mul_nx1/addmul_nx1/submul_nx1 on ALL contents (lengths 1,2) relative to Rust's `*`.",
+            "Outside: lengths above those listed (property asks 0..=10); shift amount 0 (debug-panics in `>> 64`: "
+            "outside the functions' evident precondition, see DESIGN 7)."),
     "C05": ("5/C05",
             "Widths {0,1,2,7,8,63,64,65,127,128,129,192,250,256}: every value x every usize shift amount x every bit "
             "position (one symbolic index) for all shl/shr method forms incl. exact lost-bit flags, arithmetic_shr, "
